@@ -66,8 +66,10 @@ func (server *SugarDB) getHandlerFuncParams(ctx context.Context, cmd []string, c
 		SwapDBs:               server.SwapDBs,
 		GetServerInfo:         server.GetServerInfo,
 		DeleteKey: func(ctx context.Context, key string) error {
+			verif.Point("ks.deleteKey.enter")
 			server.storeLock.Lock()
 			defer server.storeLock.Unlock()
+			verif.Point("ks.deleteKey.locked")
 			return server.deleteKey(ctx, key)
 		},
 		GetConnectionInfo: func(conn *net.Conn) internal.ConnectionInfo {
